@@ -132,6 +132,7 @@ def analyse_function(P, C, f, label, require_close):
                 if f.nodes[t]["k"] == "DeclRefExpr":
                     handle_vars.add(f.nodes[t]["decl"]["id"])
     ed3_viol = {}
+    close_while_armed = {}
 
     def transfer(st, e, b, j):
         pend, closed, armed = st
@@ -146,6 +147,10 @@ def analyse_function(P, C, f, label, require_close):
             return THROWN     # exceptional exit: identity of the join at the exit block
         if i in calls:
             nm = n["callee"]["name"]
+            if nm == CLOSE and armed:
+                # cfitsio releases the handle in fits_close_file even when the close reports an error: if the guard is still armed here,
+                # the exception thrown for a failed close unwinds through the guard, which closes the released handle a second time
+                close_while_armed[f.loc(i)] = True
             pend = pend | {(calls[i], cfits_name(f, i), f.loc(i), nm)}
             return (pend, closed, armed)
         # use of the handle while its creation status is pending (ED-3)
@@ -222,6 +227,10 @@ def analyse_function(P, C, f, label, require_close):
         C.ob("ED-2", label, "checked-close", closed_all and n_exits > 0, f.where(),
              "every normal exit must be preceded by a fits_close_file whose status is checked (data reach the file when cfitsio flushes at close)"
              if not closed_all else "close executed and checked on every path to the normal exit")
+        C.ob("ED-2", label, "guard-disarmed-before-the-close", not close_while_armed, sorted(close_while_armed)[0] if close_while_armed else f.where(),
+             "the explicit fits_close_file runs with the closing guard already disarmed" if not close_while_armed else
+             "fits_close_file is called while the closing guard still holds the handle: cfitsio releases the handle even when the close fails, so "
+             "the exception for a failed close unwinds through the guard and closes the released handle again (use after free / double free inside cfitsio)")
         # armed guard at normal exit: its destructor closes and can only drop the status
         for gq, g in guards.items():
             fld = dtor_close_is_conditional(g)
